@@ -320,7 +320,30 @@ def _post_chk(engine, st, ctx, out):
     return cl
 
 
+# ---- the @ensure_future wrapper (single future: f_map, f_flat_map, f_timeout, f_nocancel, f_proxy): same shape, no loop -------------
+def _post_chk1(engine, st, ctx, out):
+    calls = [e for e in user_calls(st) if e.callee is not None and e.callee.eq(ctx["f"].t)]
+    others = [e for e in user_calls(st) if not (e.callee is not None and e.callee.eq(ctx["f"].t))]
+    cl = [("the wrapper calls the wrapped function at most once, and nothing else of the caller's", "PC", z3.BoolVal(len(calls) <= 1 and not others), ["C13", "C17", "C09"])]
+    if not calls:
+        cn = engine.class_of_value(st, out.exc) if isinstance(out, Raise) else None
+        cl.append(("without calling it, the wrapper can only raise TypeError", "PC", z3.BoolVal(cn == "TypeError"), ["C13", "C17", "C09"]))
+        return cl
+    ev = calls[0]
+    star = engine.resolve(st, ev.star) if ev.star is not None else None
+    sk = engine.resolve(st, ev.starkw) if ev.starkw is not None else None
+    kd = st.objreg.get(engine.concrete_id(sk.t)) if isinstance(sk, Z) and sk.ty == "kwdict" else None
+    cl.append(("the wrapped function gets exactly the caller's positional and keyword arguments (fn, error_fn, timeout ... reach it untouched)", "PC",
+               z3.BoolVal(isinstance(star, ArgPack) and star.t.eq(ctx["a"].t) and not ev.args and
+                          ((isinstance(sk, ArgPack) and sk.t.eq(ctx["k"].t)) or (kd is not None and not kd.known and not kd.removed and kd.base is not None and kd.base.eq(ctx["k"].t)))), ["C13", "C17", "C09"]))
+    cl.append(("its result / exception is the wrapper's", "PC",
+               (engine.to_val(st, out.exc) == ev.exc) if isinstance(out, Raise) and ev.exc is not None else
+               ((engine.to_val(st, out) == ev.ret) if not isinstance(out, Raise) and ev.ret is not None else z3.BoolVal(False)), ["C13", "C17", "C09"]))
+    return cl
+
+
 UNITS = [
+    Unit("ensure_future.new_fn", "futures.check.ensure_future.new_fn", ["C13", "C17", "C09"], _setup_chk, _post_chk1, cfg=_cfg),
     Unit("ensure_futures.new_fn", "futures.check.ensure_futures.new_fn", ["C16", "C15", "C14"], _setup_chk, _post_chk, cfg=_cfg_chk),
     Unit("f_apply", "futures.apply.f_apply", ["C16"], _setup_top, _post_top, cfg=_cfg_top),
     Unit("_wrap_args", "futures.apply._wrap_args", ["C16"], _setup_wrap_args, _post_wrap_args, cfg=_cfg_wrap_args),
